@@ -19,6 +19,7 @@
 -/
 import Distill.Model.Style
 import Distill.Model.Candidates
+import Distill.Model.Pagination
 namespace Distill.LinkScore
 open Distill
 
@@ -158,33 +159,48 @@ def dataOf (F : Facts) : List Char := F.text.toList ++ ' ' :: F.cls.toList ++ ' 
 def own (next : Bool) (s : List Char) : Bool := if next then rxNextLink s else rxPrevLink s
 def opp (next : Bool) (s : List Char) : Bool := if next then rxPrevLink s else rxNextLink s
 
+/-- the filters at the head of the loop body: `some v` when the anchor is ignored or banned -/
+def filterOutcome (next : Bool) (F : Facts) : Option Verdict :=
+  if !F.absOK then some (.ignored "can't converted to abs url")
+  else if !F.hasPrefix then some (.ignored "not prefix")
+  else if next && !F.restHasDigit then some (.ignored "not prefix + number")
+  else if !F.cleanOK then some (.ignored "can't be cleaned")
+  else if F.eqCurrent || (next && F.eqFolder) then some (.ignored "same as current or folder url")
+  else if F.text.utf8ByteSize > 25 then some (.ignored "link text too long")
+  else if rxExtraneous F.text.toList then some .banned
+  else if next && !rxNumber F.remainder.toList then some (.ignored "no number beyond folder url")
+  else none
+
+/-- the score of an anchor that got past the filters -/
+def score (next : Bool) (F : Facts) : Int :=
+  let text := F.text.toList
+  let textLen := F.text.utf8ByteSize
+  let data := dataOf F
+  let href := F.href.toList
+  let s0 : Int := if F.inFolder then 0 else -25
+  let s1 := s0 + (if own next data then 50 else 0)
+  let s2 := s1 + (if rxPagination data then 25 else 0)
+  let s3 := s2 + (if rxFirstLast data && !own next text then -65 else 0)
+  let s4 := s3 + (if rxNegative data || rxExtraneous data then -50 else 0)
+  let s5 := s4 + (if opp next data then -200 else 0)
+  let s6 := s5 + parentScore false false F.parents
+  let s7 := s6 + (if rxLinkPagination href || rxPagination href then 25 else 0)
+  let s8 := s7 + (if rxExtraneous href then -15 else 0)
+  let s9 := s8 + (if textLen > 10 then -(textLen : Int) else 0)
+  let s10 := s9 + numBonus next text
+  s10 + diffBonus next F
+
 def verdict (next : Bool) (F : Facts) : Verdict :=
-  if !F.absOK then .ignored "can't converted to abs url"
-  else if !F.hasPrefix then .ignored "not prefix"
-  else if next && !F.restHasDigit then .ignored "not prefix + number"
-  else if !F.cleanOK then .ignored "can't be cleaned"
-  else if F.eqCurrent || (next && F.eqFolder) then .ignored "same as current or folder url"
-  else
-    let text := F.text.toList
-    let textLen := F.text.utf8ByteSize
-    if textLen > 25 then .ignored "link text too long"
-    else if rxExtraneous text then .banned
-    else if next && !rxNumber F.remainder.toList then .ignored "no number beyond folder url"
-    else
-      let data := dataOf F
-      let href := F.href.toList
-      let s0 : Int := if F.inFolder then 0 else -25
-      let s1 := s0 + (if own next data then 50 else 0)
-      let s2 := s1 + (if rxPagination data then 25 else 0)
-      let s3 := s2 + (if rxFirstLast data && !own next text then -65 else 0)
-      let s4 := s3 + (if rxNegative data || rxExtraneous data then -50 else 0)
-      let s5 := s4 + (if opp next data then -200 else 0)
-      let s6 := s5 + parentScore false false F.parents
-      let s7 := s6 + (if rxLinkPagination href || rxPagination href then 25 else 0)
-      let s8 := s7 + (if rxExtraneous href then -15 else 0)
-      let s9 := s8 + (if textLen > 10 then -(textLen : Int) else 0)
-      let s10 := s9 + numBonus next text
-      let s11 := s10 + diffBonus next F
-      .cand s11
+  match filterOutcome next F with
+  | some v => v
+  | none => .cand (score next F)
+
+/-! ### the whole finder, from the facts about every anchor -/
+
+/-- `PrevNextFinder.FindOutlink`: the banned URLs, the candidates in document order, the best one -/
+def findOutlink (next : Bool) (Fs : List Facts) : String :=
+  let banned := Fs.filterMap fun F => match verdict next F with | .banned => some F.href | _ => none
+  let cands := Fs.filterMap fun F => match verdict next F with | .cand sc => some (⟨F.href, sc⟩ : Pg.Cand) | _ => none
+  Pg.prevNextResult banned cands
 
 end Distill.LinkScore
